@@ -76,11 +76,12 @@ var c19Basic = map[string]reflect.Type{
 var c19Any = reflect.TypeOf((*any)(nil)).Elem()
 
 type c19Pkg struct {
-	fset  *token.FileSet
-	files []*ast.File
-	types map[string]ast.Expr      // package-level type specs
-	funcs map[string]*ast.FuncDecl // methods and functions by name
-	built map[string]reflect.Type
+	fset    *token.FileSet
+	files   []*ast.File
+	types   map[string]ast.Expr      // package-level type specs
+	funcs   map[string]*ast.FuncDecl // methods and functions by name
+	built   map[string]reflect.Type
+	helpers map[string]bool
 }
 
 func c19RepoDir() string {
@@ -259,6 +260,51 @@ func c19ScanSource() (*c19Src, error) {
 	return src, nil
 }
 
+// decodeHelpers: non-handler functions of the package that (transitively) read
+// json.NewDecoder(<request>.Body) - e.g. decodeJSON.
+func (p *c19Pkg) decodeHelpers() map[string]bool {
+	if p.helpers != nil {
+		return p.helpers
+	}
+	p.helpers = map[string]bool{}
+	for changed := true; changed; {
+		changed = false
+		for name, fd := range p.funcs {
+			if p.helpers[name] || fd.Body == nil || strings.HasPrefix(name, "handle") {
+				continue
+			}
+			hit := false
+			ast.Inspect(fd.Body, func(n ast.Node) bool {
+				c, ok := n.(*ast.CallExpr)
+				if !ok {
+					return true
+				}
+				switch f := c.Fun.(type) {
+				case *ast.SelectorExpr:
+					if f.Sel.Name == "NewDecoder" && len(c.Args) == 1 {
+						if bs, ok := c.Args[0].(*ast.SelectorExpr); ok && bs.Sel.Name == "Body" {
+							hit = true
+						}
+					}
+					if p.helpers[f.Sel.Name] {
+						hit = true
+					}
+				case *ast.Ident:
+					if p.helpers[f.Name] {
+						hit = true
+					}
+				}
+				return true
+			})
+			if hit {
+				p.helpers[name] = true
+				changed = true
+			}
+		}
+	}
+	return p.helpers
+}
+
 // scanHandler looks inside the handler for the decode call and the decoded variable's type.
 func (p *c19Pkg) scanHandler(r *c19Route, src *c19Src) {
 	fd := p.funcs[r.Handler]
@@ -292,6 +338,27 @@ func (p *c19Pkg) scanHandler(r *c19Route, src *c19Src) {
 				}
 			}
 		case *ast.CallExpr:
+			// a decode helper of the package (decodeJSON and whatever wraps json.NewDecoder(r.Body))
+			fname := ""
+			switch f := x.Fun.(type) {
+			case *ast.Ident:
+				fname = f.Name
+			case *ast.SelectorExpr:
+				fname = f.Sel.Name
+			}
+			if p.decodeHelpers()[fname] {
+				for _, a := range x.Args {
+					if u, ok := a.(*ast.UnaryExpr); ok && u.Op == token.AND {
+						r.ReadsBody = true
+						if fname == "decodeJSON" {
+							r.Strict = true
+						}
+						if target == "" {
+							target = c19AddrIdent(a)
+						}
+					}
+				}
+			}
 			sel, ok := x.Fun.(*ast.SelectorExpr)
 			if !ok {
 				return true
@@ -303,13 +370,6 @@ func (p *c19Pkg) scanHandler(r *c19Route, src *c19Src) {
 				r.Drops = true
 			case "VImportCommit":
 				r.Commits = true
-			case "decodeJSON":
-				if len(x.Args) == 2 {
-					r.ReadsBody, r.Strict = true, true
-					if target == "" {
-						target = c19AddrIdent(x.Args[1])
-					}
-				}
 			case "Decode":
 				// json.NewDecoder(r.Body).Decode(&v)
 				if inner, ok := sel.X.(*ast.CallExpr); ok {
